@@ -1052,6 +1052,36 @@ theorem transact_total_typed (fuel : Nat) (w : World) (e : Evm.Env) (spec : Nat)
   · exact Or.inl ⟨_, hx⟩
   · exact Or.inr hx
 
+/-- the fresh world of a pre-state whose codes and recorded precompile outputs are Rust `Bytes` is typed -/
+theorem wtyped_fresh (spec : Nat) (pre : List PreAcct) (dbHasStorage : Bool) (oracle : List PcAnswer)
+    (hcode : ∀ p ∈ pre, p.code.length ≤ Memory.ISIZE_MAX) (hpc : ∀ a ∈ oracle, a.out.length ≤ Memory.ISIZE_MAX) :
+    WTyped (Spec.Evm.freshWorld spec pre dbHasStorage oracle) := by
+  refine ⟨⟨fun q hq => ?_, hpc⟩, rfl⟩
+  obtain ⟨p, hp, hq⟩ := List.mem_filterMap.mp hq
+  split at hq
+  · cases hq
+  · cases hq; exact hcode p hp
+
+/-- COROLLARY, in the shape of C01 `FullStatement_transact_total`: on the fresh world of a pre-state made of Rust values
+(256-bit balances, codes and recorded precompile outputs `Bytes`), for a transaction made of Rust values (calldata a
+`Bytes`, `gas_limit < u64::MAX`), with the fuel bound stated there, the answer is a result or a SOFT error (code-store
+miss, precompile panic, oracle miss, fatal database error) — never a panic of the journal, the frame machine or the
+interpreter, never "out of fuel". What still separates this from `FullStatement_transact_total`: the precompile panic
+(C23: MODEXP on a huge length does panic) and `code_by_hash` on an inconsistent code store, which are true of the code. -/
+theorem transact_total_fresh' (spec : Nat) (pre : List PreAcct) (dbHasStorage : Bool)
+    (oracle : List PcAnswer) (e : Evm.Env) (hbal : ∀ p ∈ pre, p.balance < W)
+    (hcode : ∀ p ∈ pre, p.code.length ≤ Memory.ISIZE_MAX) (hpc : ∀ a ∈ oracle, a.out.length ≤ Memory.ISIZE_MAX)
+    (he : ETyped e) :
+    match Evm.transact (2 * e.tx.gasLimit + 2) (Spec.Evm.freshWorld spec pre dbHasStorage oracle) e spec with
+    | .ok _ => True
+    | .error err => Soft err := by
+  have hw : WOk (Spec.Evm.freshWorld spec pre dbHasStorage oracle) :=
+    wok_fresh _ (GasCalc.canon spec) (fun _ => false) rfl hbal
+  rcases transact_total_partial' (2 * e.tx.gasLimit + 2) _ e spec hw
+    (wtyped_fresh spec pre dbHasStorage oracle hcode hpc) he (Nat.le_refl _) with ⟨o, w', h, _⟩ | ⟨err, h, h1⟩
+  · rw [h]; trivial
+  · rw [h]; exact h1
+
 /-- non-vacuity: the sample world and environment are typed -/
 example : WTyped sampleWorld where
   store := by
